@@ -1,4 +1,10 @@
-(* C22 (round 2): an iterator created at state s and drained later yields the (prefix,start)-filter
+(* NOT a theorem of record (round 4): the statement below is true BY CONSTRUCTION of the model — OLit
+   stores the drained list and [lives_after] erases it exactly for the operations [op_kills_lives]
+   names — so it says nothing about flushableIterator or gods' Clear().  It is kept as the
+   bookkeeping lemma behind the exact comparison of live iterators in the correspondence; which
+   operations keep a live iterator valid is an ASSUMPTION (KvOps.op_kills_lives, KvStack.stack_lsafe)
+   that only the differential run supports.
+   C22 (round 2): an iterator created at state s and drained later yields the (prefix,start)-filter
    of the view AT s, whatever happened in between as long as nothing it reads from was mutated in
    place: reads, snapshots, batch building, other iterators and — over a stack with one tree-bearing
    layer above an engine ([lsafe]) — Flush and DropNotFlushed. *)
